@@ -79,6 +79,8 @@ def mutating_methods(repo):
                     mut = True
                 elif recv == "self":
                     callees.add(n.func.attr)
+        if mut and _is_memo_getter(f):
+            mut = False  # the only thing it writes is its own cache entry: a function of its argument
         if mut:
             direct.add(f.name)
         calls.setdefault(f.name, set()).update(callees)
@@ -91,6 +93,34 @@ def mutating_methods(repo):
                 changed = True
     _mutating[key] = direct
     return direct
+
+
+def _is_memo_getter(f):
+    """`def m(self, k): if k not in self.C: [v = g(k);] self.C[k] = v ; return self.C[k]` - a memoised function of k:
+    calling it once, twice or at another point gives the same value and nothing else observes the cache"""
+    body = [x for x in f.node.body if not (isinstance(x, ast.Expr) and isinstance(x.value, ast.Constant))]
+    if len(f.params) != 2 or len(body) != 2 or not isinstance(body[0], ast.If) or not isinstance(body[1], ast.Return) or body[0].orelse:
+        return False
+    k = f.params[1]
+    t = body[0].test
+    if not (isinstance(t, ast.Compare) and len(t.ops) == 1 and isinstance(t.ops[0], ast.NotIn) and u(t.left) == k and re.fullmatch(r"self\.\w+", u(t.comparators[0]))):
+        return False
+    cache = u(t.comparators[0])
+    if u(body[1].value) != f"{cache}[{k}]":
+        return False
+    stores = [x for x in ast.walk(body[0]) if isinstance(x, (ast.Attribute, ast.Subscript)) and isinstance(x.ctx, ast.Store)]
+    if [u(x) for x in stores] != [f"{cache}[{k}]"]:
+        return False
+    # nothing else of the class writes the cache (other than creating it empty)
+    for g in f.cls.methods.values():
+        if g is f:
+            continue
+        for x in g.body_nodes():
+            if isinstance(x, ast.Subscript) and isinstance(x.ctx, (ast.Store, ast.Del)) and u(x.value) == cache:
+                return False
+            if isinstance(x, ast.Call) and isinstance(x.func, ast.Attribute) and u(x.func.value) == cache and x.func.attr in ("pop", "clear", "update", "setdefault", "popitem"):
+                return False
+    return True
 
 
 class _H(Hooks):
@@ -115,6 +145,8 @@ class _H(Hooks):
         m = self.fi.cls.find_method(ftext[5:])
         if m is None or m.node is self.fi.node:
             return None
+        if _is_memo_getter(m):
+            return None  # a memoised function: its value, not its cache store
         body = [x for x in m.node.body if not (isinstance(x, ast.Expr) and isinstance(x.value, ast.Constant))]
         if len(body) > 6 or any(isinstance(n, (ast.For, ast.While, ast.Try, ast.With, ast.Yield, ast.YieldFrom)) for n in ast.walk(m.node)):
             return None
